@@ -779,10 +779,12 @@ def neighbours(case, rng):
     """Failing-input search around a model/code disagreement."""
     yield from simplifications(case)
     n = case["n"]
-    for sub in ordered_subsets(n):
-        c = dict(case)
-        c["idx"] = list(sub)
-        yield c
+    problem = case.get("level") == "problem"
+    if not problem:
+        for sub in ordered_subsets(n):
+            c = dict(case)
+            c["idx"] = list(sub)
+            yield c
     if case.get("ds"):
         for t in range(n):
             _, up = work_bounds(case, t)
@@ -793,13 +795,19 @@ def neighbours(case, rng):
                     c["x"] = case["x"][:t] + [rat(v)] + case["x"][t + 1 :]
                     yield c
     for _ in range(60):
-        yield gen_exact_case(
+        c = gen_exact_case(
             rng,
             scheme=case["scheme"],
             n=n,
             vec=isinstance(case["step"], list),
             with_ds=bool(case.get("ds")),
+            **({"idx": []} if problem else {}),
         )
+        if problem:
+            c.update(level="problem", scalar_out=False, step_via="arg")
+        elif case.get("stream") == "rounded":
+            c = gen_rounded_case(rng)
+        yield c
 
 
 # --------------------------------------------------------------------------- discipline level
